@@ -13,12 +13,13 @@ RULE = ('shapes = {RTS/CTS traced on the originator, RTS/CTS traced on the respo
         '{1,2,all} x latency profiles {<=1 ms, <=5 ms}, plus failing transfers against a scripted peer (abort on RTS / after the first data packet, CTS then silence, inbound session abandoned / aborted / half sent) traced on the real stack; one baseline run per shape counts the N source-line events the traced job thread executes '
         'in repository code during the transfer; then EVERY k in 1..N: the thread is parked at its k-th line for a hold in {0.2, 1, 5 ms} of virtual '
         'time while frame reception on the same stack goes on (exhaustive for one pre-emption); plus sampled runs with two pre-emptions (same or '
-        'both job threads), the CONVERSE for the main shapes (frames are handled by a controlled receive thread of their own, which is suspended at EVERY source line of its handlers in turn for 0.2..60 ms while the job thread of the same stack is made to run passes -- an unrelated one-shot timer is added at the hold), and, in the thorough tier, EVERY pair of pre-emption points of one thread for the smallest connection-mode shapes; oracle = same outcome as the baseline: payload delivered intact exactly once, tables empty/pools full 8 s later, job '
+        'both job threads), shapes in which the application submits the next message to the same peer exactly while the job thread is held (every line in turn), DEADLINE RACES (checks/races.py: against a scripted peer that delays exactly the awaited frame -- first CTS, second CTS, CTS after a hold, end-of-message acknowledge, first / next data packet of an inbound session, first packet of a broadcast -- until the session\'s time-out T1/T2/T3/T5/Th is due within -4..+0.5 ms, with both threads of the stack pre-empted at every ~8th source line around that instant; either side may win: threads alive, tables empty, pools full, payload exact or nothing, and the next transfer on the same pair completes), the CONVERSE for the main shapes (frames are handled by a controlled receive thread of their own, which is suspended at EVERY source line of its handlers in turn for 0.2..60 ms while the job thread of the same stack is made to run passes -- an unrelated one-shot timer is added at the hold), and, in the thorough tier, EVERY pair of pre-emption points of one thread for the smallest connection-mode shapes; oracle = same outcome as the baseline: payload delivered intact exactly once, tables empty/pools full 8 s later, job '
         'threads alive and parked; a case = one (shape, hold) with all its k; non-trivial = the hold overlapped a frame reception at least once; '
         'distinct = shape x hold')
 ASSUMPTIONS = ['pre-emption granularity is the source line (sys.settrace line events in the job thread, or in the receive thread for the converse shapes); in the job-thread shapes frame handlers run to completion',
                'the k-th line event is counted from the submission of the transfer']
-MIN_OBS = {'preempted_runs': {'quick': 4000, 'thorough': 60000}, 'rx_preempted_runs': {'quick': 5000, 'thorough': 20000}, 'distinct_lines_max': 1, 'holds_overlapping_reception': {'quick': 500, 'thorough': 8000}}
+MIN_OBS = {'races': {'quick': 80, 'thorough': 800}, 'race_holds': {'quick': 400, 'thorough': 4000}, 'race_completed': {'quick': 10, 'thorough': 100}, 'race_timed_out': {'quick': 10, 'thorough': 100},
+           'resubmissions_accepted': {'quick': 400, 'thorough': 1200}, 'preempted_runs': {'quick': 4000, 'thorough': 60000}, 'rx_preempted_runs': {'quick': 5000, 'thorough': 20000}, 'distinct_lines_max': 1, 'holds_overlapping_reception': {'quick': 500, 'thorough': 8000}}
 
 J_DIR = os.path.realpath(os.path.join(REPO, 'j1939')) + os.sep
 
@@ -100,6 +101,9 @@ def cases(tier, seed):
                 for sl in range(8):
                     out.append(dict(kind='pairs', layer=layer, mode='cmdt', role=role, w=1, lat=(0.0001, 0.001), hold=0.001, size=unit * 2 - 2,
                                     slice=sl, slices=8, seed=seed * 131 + 7))
+    # deadline races: the awaited frame arrives when the session's time-out expires, both threads pre-empted densely around that instant
+    from checks import races
+    out.extend(races.cases(tier, seed))
     nd = 150 if tier == 'quick' else 3000
     for i in range(nd):
         layer = rng.choice(['j1939-21', 'j1939-22'])
@@ -323,8 +327,14 @@ def judge(case, r, viol, what, obs):
 
 
 def run_case(case):
+    if case['kind'] == 'deadline_race':
+        from checks import races
+        r = races.run_case(case)
+        for k in ('resubmissions', 'resubmissions_accepted', 'preempted_runs', 'rx_preempted_runs', 'holds_overlapping_reception', 'distinct_lines_max', 'line_events_baseline'):
+            r['obs'].setdefault(k, 0)
+        return r
     viol = M.Violations()
-    obs = dict(resubmissions=0, resubmissions_accepted=0, preempted_runs=0, rx_preempted_runs=0, holds_overlapping_reception=0, distinct_lines_max=0, line_events_baseline=0)
+    obs = dict(races=0, race_holds=0, race_completed=0, race_timed_out=0, race_followups=0, resubmissions=0, resubmissions_accepted=0, preempted_runs=0, rx_preempted_runs=0, holds_overlapping_reception=0, distinct_lines_max=0, line_events_baseline=0)
     base = one_run(case, {}, case['seed'])
     judge(case, base, viol, 'baseline', obs)
     nA, nB = base['n']['A'], base['n']['B']
